@@ -45,6 +45,28 @@ pub fn getoffset_full(toks: &[&str]) -> String {
             iter_ok = false;
         }
     }
+    // ... also when the iterator is not simply read front to back: resumed after some items, skipped, stepped, `nth` twice
+    let name = |v: SignalValue| match v {
+        SignalValue::String(x) => x.to_string(),
+        _ => "?".to_string(),
+    };
+    let expect = |ps: Vec<usize>| -> Vec<(u32, String)> { ps.into_iter().filter(|p| *p < idx.len()).map(|p| (idx[p] as u32, format!("v{p}"))).collect() };
+    let n = idx.len();
+    {
+        let mut a = s.iter_changes();
+        let _ = a.next();
+        let got: Vec<(u32, String)> = a.skip(1).map(|(t, v)| (t, name(v))).collect();
+        iter_ok &= got == expect((2..n).collect());
+        let got: Vec<(u32, String)> = s.iter_changes().step_by(2).take(n + 2).map(|(t, v)| (t, name(v))).collect();
+        iter_ok &= got == expect((0..n).step_by(2).collect());
+        let got: Vec<(u32, String)> = s.iter_changes().skip(3).step_by(3).take(n + 2).map(|(t, v)| (t, name(v))).collect();
+        iter_ok &= got == expect((3..n).step_by(3).collect());
+        let mut b = s.iter_changes();
+        let x1 = b.nth(1).map(|(t, v)| (t, name(v)));
+        let x2 = b.nth(1).map(|(t, v)| (t, name(v)));
+        iter_ok &= x1 == expect(vec![1]).into_iter().next() && x2 == expect(vec![3]).into_iter().next();
+        iter_ok &= s.iter_changes().count() == n && s.iter_changes().last().map(|(t, v)| (t, name(v))) == expect(vec![n.wrapping_sub(1)]).into_iter().next();
+    }
     match s.get_offset(needle) {
         None => format!("none iter={}", iter_ok as u8),
         Some(d) => {
